@@ -5,16 +5,17 @@ VARIABLES stored, passed, exp
 K == 2      \* at most K parameters are touched per configuration (pairwise coverage)
 Touch == (({"Unset", "D", "A"} \X {"NotPassed", "D", "A"}) \ {<<"Unset", "NotPassed">>})
 Cfgs == UNION {{[st |-> [p \in Params |-> IF p \in S THEN a[p][1] ELSE "Unset"],
-                 pa |-> [p \in Params |-> IF p \in S THEN a[p][2] ELSE "NotPassed"]] : a \in [S -> Touch]}
+                 pa |-> [p \in Params |-> IF p \in S THEN a[p][2] ELSE "NotPassed"]] : a \in {f \in [S -> Touch] : "init_vm_pu" \in S => f["init_vm_pu"][1] # "D"}}
                : S \in {S \in SUBSET Params : Cardinality(S) <= K}}
+\* (storing the neutral value None of a keyword-only option is not enumerated: it means "nothing stored")
 Init == \E c \in Cfgs : stored = c.st /\ passed = c.pa
                         /\ exp = IF Rejected(c.st, c.pa) THEN [rejected |-> TRUE] ELSE Expected(c.st, c.pa) @@ [rejected |-> FALSE]
 Next == UNCHANGED <<stored, passed, exp>>
 
 \* model-level sanity of the required resolution
-PassedWins == ~exp.rejected => \A p \in Params \ {"init", "max_iteration"} : passed[p] # "NotPassed" => exp[p] = passed[p]
-StoredOnlyIfNotPassed == ~exp.rejected => \A p \in Params \ {"init", "max_iteration"} :
+PassedWins == ~exp.rejected => \A p \in Params \ Derived : passed[p] # "NotPassed" => exp[p] = passed[p]
+StoredOnlyIfNotPassed == ~exp.rejected => \A p \in Params \ Derived :
                             (passed[p] = "NotPassed" /\ stored[p] # "Unset") => exp[p] = stored[p]
-DefaultOtherwise == ~exp.rejected => \A p \in Params \ {"init", "max_iteration"} :
+DefaultOtherwise == ~exp.rejected => \A p \in Params \ Derived :
                             (passed[p] = "NotPassed" /\ stored[p] = "Unset") => exp[p] = "D"
 =============================================================================
